@@ -167,3 +167,35 @@ Proof. intros m a Hs Hn. pose proof (addr_info_cases m a Hs) as Hc. rewrite Hn i
 Lemma binary_search_terminates_lemma : forall m a k,
   bsearch (List.length m + k) m a 0 (List.length m) = bsearch (List.length m) m a 0 (List.length m).
 Proof. intros m a k. apply bsearch_fuel_irrelevant; lia. Qed.
+
+(* ---------------- addr2line + nm fix-up ---------------- *)
+Lemma strs_eqb_refl : forall l, strs_eqb l l = true.
+Proof. induction l as [|x l IH]; cbn [strs_eqb]; [reflexivity|]. rewrite String.eqb_refl, IH. reflexivity. Qed.
+
+Lemma a2l_fixup_meets_spec_lemma : forall base raw addr stack,
+  spec_a2l_fixup (shift_syms base raw) addr stack
+                 (a2l_addr_info base (Some (shift_syms base raw)) addr stack) = true.
+Proof.
+  intros base raw addr stack. unfold spec_a2l_fixup.
+  set (tab := shift_syms base raw).
+  destruct (sortedb tab) eqn:Hs; [|reflexivity].
+  unfold a2l_addr_info, a2l_nm_query.
+  pose proof (addr_info_meets_spec_lemma tab addr) as Hm.
+  assert (Hgoal : existsb (fun r => spec_addr_info tab addr r &&
+                     strs_eqb (a2l_apply_nm (addr_info tab addr) stack) (a2l_apply_nm r stack))
+                    (None :: map (fun s => Some (sy_name s)) tab) = true).
+  { apply existsb_exists. exists (addr_info tab addr). split.
+    - destruct (addr_info tab addr) as [n|] eqn:En; [|left; reflexivity].
+      right. destruct (addr_info_greatest_le_lemma tab addr n Hs En) as (s & Hin & Hn & _).
+      apply in_map_iff. exists s. rewrite Hn. split; [reflexivity | exact Hin].
+    - rewrite Hm, strs_eqb_refl. reflexivity. }
+  destruct stack as [|x stack']; [|exact Hgoal].
+  (* empty stack: every answer leaves it empty *)
+  apply existsb_exists in Hgoal. destruct Hgoal as (r & Hin & Hr).
+  apply existsb_exists. exists r. split; [exact Hin|].
+  apply andb_true_iff in Hr. destruct Hr as [Hr _]. rewrite Hr. destruct r; reflexivity.
+Qed.
+
+(* without an attached table nothing is replaced *)
+Lemma a2l_no_nm_lemma : forall base addr stack, a2l_addr_info base None addr stack = stack.
+Proof. reflexivity. Qed.
